@@ -95,6 +95,41 @@ def d2(rep, w):
                     if src is None or any(src in q for q in org.get(pl['l'], ())):
                         ok = True
         r.check(ok, '%s parses with str::parse::<f64>' % nm.rsplit('::', 1)[-1], '%s no longer reads numbers with str::parse::<f64> on the whole token/string' % nm, g.loc())
+    # String.to_num: whatever parse accepts is the result -- the Ok payload reaches Value::Number through combinators that never drop or
+    # replace an Ok/Some payload (error mapping only). A filter in between rejects texts the printer itself produces ("inf", "NaN").
+    g = w.require_fn('yarel::core::string_to_num', 'C19')
+    org = origins(g)
+    KEEP = ('::or_else', '::map_err', '::ok', '::ok_or', '::ok_or_else', 'Try>::branch', '::into', '::from')
+    bad, reached = [], False
+    for b in g.blocks:
+        for s_ in b['s']:
+            rr = s_.get('r', {})
+            if rr.get('rv') == 'agg' and rr.get('adt') == VAL and rr.get('v') == 'Number':
+                work = [op_place(rr['ops'][0])['l']]
+                seen = set()
+                while work:
+                    l = work.pop()
+                    if l in seen:
+                        continue
+                    seen.add(l)
+                    for q in org.get(l, ()):
+                        if q[0][0] != 'call':
+                            bad.append(str(q[0]))
+                            continue
+                        n = q[0][2]
+                        if strip_generics(n).endswith('str::parse') or n.endswith('::parse'):
+                            reached = True
+                        elif any(n.endswith(k) or k in n for k in KEEP):
+                            ap = op_place(g.blocks[q[0][1]]['t']['args'][0])
+                            if ap is not None:
+                                work.append(ap['l'])
+                        else:
+                            bad.append(n)
+    direct = [1 for b in g.blocks for s_ in b['s'] if s_.get('r', {}).get('rv') == 'agg' and s_['r'].get('adt') == 'yarel::error::ErrorKind' and s_['r'].get('v') == 'ValueError']
+    if direct:
+        bad.append('a ValueError raised outside the parse-failure mapping')
+    r.check(reached and not bad, 'string_to_num: the number is parse\'s Ok payload, passed through error-mapping combinators only', 'between parse::<f64> and the returned number '
+            'string_to_num applies %s: texts that parse (such as the printed forms of the non-finite numbers) can be rejected or replaced' % sorted(set(bad))[:3], g.loc())
 
 
 def d3(rep, w):
